@@ -430,6 +430,8 @@ def dispatch(ctx, col):
           "    case '.v3dpbd':\n        return V3dpbdImageStack(fname, **kwargs)\n    case '.v3draw':\n        return V3drawImageStack(fname, **kwargs)\n"
           "    case '.npy':\n        return NDArrayImageStack(np.load(fname), **kwargs)"], "rd:match"),
         ("anything else is rejected", ["raise ValueError('unsupported image stack')"], "rd:else")], fixed=("fname", "kwargs"))
+    from ..rules import outarg as _outarg
+    _outarg.run(ctx, col, ('swcgeom.images.io', 'swcgeom.images.augmentation', 'swcgeom.images.folder', 'swcgeom.transforms.image_stack', 'swcgeom.transforms.images'))
     # sibling agreement: every reader the dispatcher can return receives the requested dtype
     col.rule("R-DISPATCH", "every reader read_imgs can return is given the requested dtype: each returned `<X>ImageStack(...)` call carries `dtype=` or the `**kwargs` in which the "
              "function keeps it (kwargs.setdefault('dtype', ...)); a branch without it returns the stored values unconverted and unscaled", floor=1)
